@@ -22,6 +22,7 @@
 EXTENDS LOAlgebra, LOIndex, Json
 
 CONSTANTS Depth, Emit, Inst,     \* Inst: index of the operator instance family
+          FamilyOn,              \* TRUE: additionally emit the "derived-then-parent" family of histories (see FamilyStep)
           H_cholesky, H_root, H_rootinv, H_diag, H_svd, H_todense,   \* TRUE = the cache key includes the call arguments
           DiagLike,              \* the class is diagonal: upper and lower Cholesky factors coincide
           Seed
@@ -38,7 +39,9 @@ Queries == << <<"to_dense", 0>>,
               <<"root_inv_decomposition", 0>>, <<"root_inv_decomposition", 1>>, <<"root_inv_decomposition", 2>>,
               <<"diagonalization", 0>>, <<"diagonalization", 2>>,              \* method: None, symeig
               <<"svd", 0>>, <<"eigh", 0>>, <<"solve", 0>>, <<"logdet", 0>>, <<"inv_quad_logdet", 0>>, <<"diagonal", 0>>,
-              <<"sample", 0>> >>
+              <<"sample", 0>>,
+              \* inverse root by Lanczos from ONE caller-supplied probe vector (its by-product is cached as the operator's root)
+              <<"root_inv_decomposition_vecs", 0>> >>
 \* does an answer computed with argument a answer a query with argument b of the same name correctly?
 \* (any root is a root and any diagonalization is one, whatever the method; a Cholesky factor has an orientation)
 SemOk(name, a, b) == IF name = "cholesky" /\ ~DiagLike THEN a = b ELSE TRUE
@@ -127,7 +130,29 @@ Toggle(ti) ==
   /\ hist' = Append(hist, [act |-> "toggle", name |-> Toggles[ti], arg |-> 0, obj |-> cur, den |-> <<>>])
   /\ UNCHANGED <<objs, cur, term>>
 
+\* ---- the derived-then-parent family: [toggle,] derive d, query X on the derived object, back, query Y on the parent.  Derived operators
+\*      share sub-operators and cached tensors with their parent; what is computed for the child must not disturb the parent's answers.
+\*      (Too deep for the breadth-first bound, so these histories are emitted directly.) ------------------------------------------------
+FamX == {qi \in 1..Len(Queries) : Queries[qi][1] \in {"cholesky", "root_decomposition", "root_inv_decomposition", "diagonalization", "svd", "eigh",
+                                                        "logdet", "solve", "inv_quad_logdet", "sample"} /\ Queries[qi][2] = 0}
+FamY == FamX \cup {qi \in 1..Len(Queries) : Queries[qi][1] \in {"to_dense", "diagonal"}}
+FamilyStep ==
+  /\ FamilyOn /\ cur = 1 /\ hist = <<>>
+  /\ \E di \in 1..Len(Derivs), qx \in FamX, qy \in FamY, tg \in BOOLEAN :
+       LET d == Derivs[di] o == objs[1] den2 == DerivedDen(d, o.den)
+           pre == IF tg THEN <<[act |-> "toggle", name |-> "max_cholesky_size_0", arg |-> 0, obj |-> 1, den |-> <<>>]>> ELSE <<>>
+           h == pre \o <<[act |-> "derive", name |-> d, arg |-> 0, obj |-> 2, den |-> den2],
+                         [act |-> "query", name |-> Queries[qx][1], arg |-> 0, obj |-> 2, den |-> <<>>],
+                         [act |-> "back", name |-> "back", arg |-> 0, obj |-> 1, den |-> <<>>],
+                         [act |-> "query", name |-> Queries[qy][1], arg |-> 0, obj |-> 1, den |-> <<>>]>>
+       IN /\ d \in {"add_jitter", "add_diagonal", "mul", "transpose", "expand", "add_low_rank"}
+          /\ (d = "expand" => Len(T_Batch(o.den.shape)) = 0)
+          /\ PrintT(ToJson([chk |-> "C12", inst |-> Inst, cls |-> InstCls[Inst], term |-> term, dense |-> o.den, steps |-> h]))
+          /\ hist' = h
+  /\ UNCHANGED <<objs, cur, toggles, term>>
+
 Next == Construct
+        \/ FamilyStep
         \/ \E qi \in 1..Len(Queries) : Query(qi)
         \/ \E di \in 1..Len(Derivs) : Derive(di)
         \/ \E ti \in 1..Len(Toggles) : Toggle(ti)
